@@ -645,3 +645,155 @@ M("c07-indefinite-suspension-ignored", "C07", "R2.suspend-decision", "concurrenc
 M("c07-invoke-suspends-without-start", "C07", "R1.record-before-suspend", "operation/invoke.py",
   "            self.state.create_checkpoint(operation_update=start_operation, is_sync=True)",
   "            self.state.create_checkpoint(operation_update=start_operation, is_sync=False)")
+
+# ----------------------------------------------------------------------------- C08
+M("c08-id-from-time", "C08", "R1.", "context.py",
+  '        step_id = f"{self._parent_id}-{step}" if self._parent_id else str(step)',
+  '        step_id = f"{self._parent_id}-{step}-{id(self)}" if self._parent_id else str(step)')
+M("c08-parent-not-hashed", "C08", "R1.both-inputs-hashed", "context.py",
+  '        step_id = f"{self._parent_id}-{step}" if self._parent_id else str(step)',
+  '        step_id = f"{step}" if self._parent_id else str(step)')
+M("c08-no-separator", "C08", "R1.both-inputs-hashed", "context.py",
+  '        step_id = f"{self._parent_id}-{step}" if self._parent_id else str(step)',
+  '        step_id = f"{self._parent_id}{step}" if self._parent_id else str(step)')
+M("c08-child-shares-counter", "C08", "R", "context.py",
+  """        return DurableContext(
+            state=self.state,
+            execution_context=self.execution_context,
+            lambda_context=self.lambda_context,
+            parent_id=parent_id,
+            logger=self.logger.with_log_info(""", """        child = DurableContext(
+            state=self.state,
+            execution_context=self.execution_context,
+            lambda_context=self.lambda_context,
+            parent_id=parent_id,
+        )
+        child._step_counter = self._step_counter
+        return DurableContext(
+            state=self.state,
+            execution_context=self.execution_context,
+            lambda_context=self.lambda_context,
+            parent_id=parent_id,
+            logger=self.logger.with_log_info(""")
+M("c08-branches-use-counter", "C08", "R4.", "concurrency/executor.py",
+  """        operation_id = executor_context._create_step_id_for_logical_step(  # noqa: SLF001
+            executable.index
+        )
+        name = f\"{self.name_prefix}{executable.index}\"""", """        operation_id = executor_context._create_step_id()  # noqa: SLF001
+        name = f\"{self.name_prefix}{executable.index}\"""")
+M("c08-id-after-executor", "C08", "R3.one-id-per-call", "context.py",
+  """        seconds = duration.to_seconds()
+        if seconds < 1:
+            msg = "duration must be at least 1 second"
+            raise ValidationError(msg)
+        operation_id = self._create_step_id()""", """        operation_id = self._create_step_id()
+        seconds = duration.to_seconds()
+        if seconds < 1:
+            msg = "duration must be at least 1 second"
+            raise ValidationError(msg)""")
+M("c08-wrong-parent-link", "C08", "R3.one-id-per-call", "context.py",
+  """        operation_id = self._create_step_id()
+        parallel_context = self.create_child_context(parent_id=operation_id)
+        operation_identifier = OperationIdentifier(
+            operation_id=operation_id, parent_id=self._parent_id, name=name
+        )""", """        operation_id = self._create_step_id()
+        parallel_context = self.create_child_context(parent_id=operation_id)
+        operation_identifier = OperationIdentifier(
+            operation_id=operation_id, parent_id=operation_id, name=name
+        )""")
+M("c08-map-context-wrong-parent", "C08", "R3.one-id-per-call", "context.py",
+  "        map_context = self.create_child_context(parent_id=operation_id)", "        map_context = self.create_child_context(parent_id=self._parent_id)")
+M("c08-factory-drops-parent", "C08", "R5.factory-copies-identity", "lambda_service.py",
+  """        \"\"\"Create an instance of OperationUpdate for type: WAIT, action: START.\"\"\"
+        return cls(
+            operation_id=identifier.operation_id,
+            parent_id=identifier.parent_id,""", """        \"\"\"Create an instance of OperationUpdate for type: WAIT, action: START.\"\"\"
+        return cls(
+            operation_id=identifier.operation_id,""")
+M("c08-replay-uses-different-id", "C08", "R4.branch-id-from-index", "concurrency/executor.py",
+  """        for executable in self.executables:
+            operation_id = executor_context._create_step_id_for_logical_step(  # noqa: SLF001
+                executable.index
+            )""", """        for executable in self.executables:
+            operation_id = executor_context._create_step_id_for_logical_step(  # noqa: SLF001
+                executable.index + 1
+            )""")
+M("c08-run-in-child-context-wrong-parent", "C08", "R3.one-id-per-call", "context.py",
+  "            return func(self.create_child_context(parent_id=operation_id))", "            return func(self.create_child_context(parent_id=step_name))")
+M("c08-benign-named-var", "C08", "", "context.py",
+  "            return func(self.create_child_context(parent_id=operation_id))",
+  "            child = self.create_child_context(parent_id=operation_id)\n            return func(child)", expect="silent")
+
+# ----------------------------------------------------------------------------- C18
+def _swap_handlers(src):
+    a = """            except CheckpointError as e:
+                # Checkpoint system is broken - stop background thread and exit immediately
+                logger.exception(
+                    "Checkpoint system failed",
+                    extra=e.build_logger_extras(),
+                )
+                return handle_checkpoint_error(e).to_dict()
+"""
+    b = """            except InvocationError:
+                logger.exception("Invocation error. Must terminate.")
+                # Throw the error to trigger Lambda retry
+                raise
+"""
+    if src.count(a) != 1 or src.count(b) != 1:
+        return None
+    return src.replace(a, "@@A@@").replace(b, a).replace("@@A@@", b)
+
+
+M2("c18-handlers-swapped", "C18", "R1.", [{"file": "execution.py", "fn": _swap_handlers}])
+M("c18-dumps-outside-try", "C18", "R1.", "execution.py",
+  """            try:
+                # Background checkpointing errors will propagate through CompletionEvent.wait() as BackgroundThreadError
+                result = user_future.result()
+""", """            result = user_future.result()
+            try:
+                # Background checkpointing errors will propagate through CompletionEvent.wait() as BackgroundThreadError
+""")
+M("c18-generic-returns-pending", "C18", "R1.outcome-classification", "execution.py",
+  """                result = DurableExecutionInvocationOutput(
+                    status=InvocationStatus.FAILED, error=ErrorObject.from_exception(e)
+                ).to_dict()""", """                result = DurableExecutionInvocationOutput(
+                    status=InvocationStatus.PENDING, error=ErrorObject.from_exception(e)
+                ).to_dict()""")
+M("c18-with-items-swapped", "C18", "R4.stop-before-join", "execution.py",
+  """            ThreadPoolExecutor(
+                max_workers=2, thread_name_prefix="dex-handler"
+            ) as executor,
+            contextlib.closing(execution_state) as execution_state,""", """            contextlib.closing(execution_state) as execution_state,
+            ThreadPoolExecutor(
+                max_workers=2, thread_name_prefix="dex-handler"
+            ) as executor,""")
+M("c18-close-does-not-stop", "C18", "R4.stop-before-join", "state.py",
+  "    def close(self):\n        self.stop_checkpointing()", "    def close(self):\n        pass")
+M("c18-execution-error-reraised", "C18", "R1.outcome-classification", "execution.py",
+  """                logger.exception("Execution error. Must terminate without retry.")
+                return DurableExecutionInvocationOutput(
+                    status=InvocationStatus.FAILED,
+                    error=ErrorObject.from_exception(e),
+                ).to_dict()""", """                logger.exception("Execution error. Must terminate without retry.")
+                raise""")
+M("c18-retriable-inverted", "C18", "R1.outcome-classification", "execution.py",
+  "    if error.is_retriable():\n        raise error from None", "    if not error.is_retriable():\n        raise error from None")
+M("c18-succeeded-with-error-key", "C18", "R2.well-formed-return", "execution.py",
+  """        if self.error:
+            result["Error"] = self.error.to_dict()
+""", """        result["Error"] = self.error.to_dict() if self.error else None
+""")
+M("c18-payload-error-unwrapped", "C18", "R5.malformed-payload-raises-execution-error", "execution.py",
+  "            except (KeyError, TypeError, AttributeError) as e:", "            except (TypeError, AttributeError) as e:")
+M("c18-collector-ignores-stop", "C18", "R4.consumer-loops-observe-stop", "state.py",
+  "            while not self._checkpointing_stopped.is_set():\n                try:\n                    first_op",
+  "            while True:\n                try:\n                    first_op")
+M("c18-failed-with-result", "C18", "R2.well-formed-return", "execution.py",
+  """                return DurableExecutionInvocationOutput(
+                    status=InvocationStatus.FAILED,
+                    error=ErrorObject.from_exception(e),
+                ).to_dict()""", """                return DurableExecutionInvocationOutput(
+                    status=InvocationStatus.FAILED,
+                    result="",
+                    error=ErrorObject.from_exception(e),
+                ).to_dict()""")
